@@ -91,6 +91,8 @@ impl LogInnerManager {
         &&& forall|i: int| self.index_cursor <= i < 4096 ==> #[trigger] a[i] == 0u8
         // the last entry was written while the area still had its 10 spare bytes (so the reader's `offset > len - 10` stop never cuts an entry off)
         &&& (self.indexs@.len() > 1 ==> 32 + idx_area(self.indexs@.drop_last()).len() <= 4085)
+        // the first 32 bytes are the header this state was opened with (nothing but `init` on an empty file writes there)
+        &&& hdr_of(a.take(32)) == self.header
     }
     pub open spec fn wf(&self) -> bool { self.wf_data() && self.wf_points() && self.wf_area() }
 }
@@ -263,8 +265,10 @@ pub proof fn lemma_write_points_push(o: LogInnerManager, n: LogInnerManager)
 
 pub proof fn lemma_write_area_push(o: LogInnerManager, n: LogInnerManager)
     requires o.wf_area(), o.wf_points(), o.index_cursor + 10 < 4096, write_idx_push(o, n), n.data_cursor < 0x1_0000_0000, n.data_cursor > o.indexs@.last().file_index,
+        n.header == o.header,
     ensures n.wf_area()
 {
+    assert(n.index_file.contents().take(32) =~= o.index_file.contents().take(32));
     let ix = o.indexs@;
     let nx = n.indexs@;
     let delta = (n.data_cursor - ix.last().file_index) as nat;
@@ -558,6 +562,7 @@ pub proof fn lemma_strip_area(o: LogInnerManager, n: LogInnerManager, p: int, k:
     let a1 = n.index_file.contents();
     let l = idx_area(nx).len() as int;
     assert(l == n.index_cursor - 32);
+    assert(n.index_file.contents().take(32) =~= o.index_file.contents().take(32));
     assert(a1.subrange(32, n.index_cursor as int) =~= idx_area(nx)) by {
         assert forall|i: int| 0 <= i < l implies a1.subrange(32, n.index_cursor as int)[i] == idx_area(nx)[i] by {
             assert(a0.subrange(32, o.index_cursor as int)[i] == a0[i + 32]);
@@ -898,12 +903,14 @@ pub proof fn lemma_reopen(m: LogInnerManager)
         let ix = idx_build(first, m.header.index_interval as int, d);
         let tail = img.skip(ix.last().file_index as int);
         let sc = scan(tail, 0xffff);
-        &&& img.len() == m.file_len
+        &&& img.len() == m.file_len && img.len() > 4096
+        &&& hdr_of(img.take(32)) == m.header
         &&& forall|off: int| 0 <= off < a.len() ==> #[trigger] idx_val_ok(a, off)
         &&& ix == m.indexs@ && 32 + deltas_bytes(d) == m.index_cursor
         &&& ok_stream(tail) && terminated(tail)
         &&& ix.last().file_index + sc.0 == m.data_cursor
         &&& ix.last().log_index - m.start_index + sc.1 == m.msg_count
+        &&& 4096 <= ix.last().file_index <= img.len() && m.start_index <= ix.last().log_index
     })
 {
     let img = m.disk_image();
@@ -914,6 +921,7 @@ pub proof fn lemma_reopen(m: LogInnerManager)
     let interval = m.header.index_interval as int;
     let c = idx_area(ix0).len() as int;
     assert(img.len() == m.file_len);
+    assert(img.take(32) =~= ic.take(32));
     assert(a =~= ic.subrange(32, 4096));
     assert(c == m.index_cursor - 32) by { assert(ic.subrange(32, m.index_cursor as int).len() == m.index_cursor - 32); }
     assert(a.take(c) =~= idx_area(ix0)) by { assert(a.take(c) =~= ic.subrange(32, m.index_cursor as int)); }
@@ -955,6 +963,7 @@ pub proof fn lemma_reopen(m: LogInnerManager)
     lemma_records_then_zeros(suffix, rest);
     assert(rest <= 0xffff);
     assert(scan(suffix, 0xffff) == scan(suffix, rest));
+    lemma_scan_bounds(suffix, rest);
 }
 
 
@@ -1077,6 +1086,44 @@ pub proof fn lemma_read_setup(o: LogInnerManager, a: u64, b: u64, p: int)
     lemma_records_then_zeros(from, restk);
     lemma_scan_mono(from, cnt, restk);
     assert(from =~= cts.skip(4096 + scan(s0, aj).0));
+}
+
+
+/// D is what a well-formed state m left on disk (A-SAMEFILE: index handle wrote the first 4 KiB, data handle the rest)
+pub open spec fn is_image_of(d: Seq<u8>, m: LogInnerManager, start_index: u64) -> bool {
+    m.wf() && m.start_index == start_index && d == m.disk_image()
+}
+/// the reopened state t carries the same log as m
+pub open spec fn same_log(t: LogInnerManager, m: LogInnerManager) -> bool {
+    &&& t.indexs@ == m.indexs@ && t.index_cursor == m.index_cursor && t.data_cursor == m.data_cursor && t.msg_count == m.msg_count
+    &&& t.file_len == m.file_len && t.header == m.header && t.start_index == m.start_index && t.current_index_count == m.current_index_count
+    &&& t.data_file.contents() == m.disk_image() && t.index_file.contents() == m.disk_image()
+}
+
+/// msg_count % interval is the distance to the last index entry
+pub proof fn lemma_index_count_mod(ix: Idx, interval: int, start: int, msg_count: int, cic: int)
+    requires idx_wf(ix, interval), ix[0].log_index == start, cic == msg_count - (ix.last().log_index - start), 0 <= cic < interval
+    ensures msg_count % interval == cic
+{
+    lemma_idx_mono_first(ix, interval, ix.len() - 1);
+    let q = ix.len() - 1;
+    assert(msg_count == interval * q + cic);
+    vstd::arithmetic::div_mod::lemma_fundamental_div_mod_converse(msg_count, interval, q, cic);
+}
+
+/// a state whose handles both show the disk image of a well-formed state, with that state's scalars, is well formed
+pub proof fn lemma_reopened_wf(t: LogInnerManager, m: LogInnerManager)
+    requires m.wf(), same_log(t, m), !t.need_seek_at_write, t.data_file.pos() == t.data_cursor
+    ensures t.wf()
+{
+    let d = m.disk_image();
+    assert(d.skip(4096) =~= m.recs());
+    assert(t.recs() =~= m.recs());
+    assert(d.len() == m.file_len);
+    assert forall|i: int| t.data_cursor <= i < d.len() implies #[trigger] d[i] == 0u8 by { assert(d[i] == m.data_file.contents()[i]); }
+    assert(d.subrange(32, t.index_cursor as int) =~= m.index_file.contents().subrange(32, m.index_cursor as int));
+    assert forall|i: int| t.index_cursor <= i < 4096 implies #[trigger] d[i] == 0u8 by { assert(d[i] == m.index_file.contents()[i]); }
+    assert(d.take(32) =~= m.index_file.contents().take(32));
 }
 
 } // verus!
